@@ -78,16 +78,28 @@ func NewBus(opts ...Option) event.Bus {
 }
 
 func (b *basicBus) withNode(typ reflect.Type, cb func(*node), async func(*node)) {
-	b.lk.Lock()
+	var n *node
+	for {
+		b.lk.Lock()
+		var ok bool
+		n, ok = b.nodes[typ]
+		if !ok {
+			n = newNode(typ, b.metricsTracer, b.log)
+			b.nodes[typ] = n
+		}
+		b.lk.Unlock()
 
-	n, ok := b.nodes[typ]
-	if !ok {
-		n = newNode(typ, b.metricsTracer, b.log)
-		b.nodes[typ] = n
+		// The bus lock is NOT held while waiting for the node: the node lock can
+		// be held for a long time by an emit that is blocked on a slow
+		// subscriber, and that subscriber may itself be inside a multi-type
+		// Subscribe that needs the bus lock to register its next type.
+		n.lk.Lock()
+		if !n.dropped {
+			break
+		}
+		// tryDropNode removed this node while we were waiting for it.
+		n.lk.Unlock()
 	}
-
-	n.lk.Lock()
-	b.lk.Unlock()
 
 	cb(n)
 
@@ -103,22 +115,23 @@ func (b *basicBus) withNode(typ reflect.Type, cb func(*node), async func(*node))
 
 func (b *basicBus) tryDropNode(typ reflect.Type) {
 	b.lk.Lock()
+	defer b.lk.Unlock()
 	n, ok := b.nodes[typ]
 	if !ok { // already dropped
-		b.lk.Unlock()
 		return
 	}
 
-	n.lk.Lock()
+	// Never wait for the node lock while holding the bus lock (see withNode):
+	// a node whose lock is taken is in use.
+	if !n.lk.TryLock() {
+		return
+	}
+	defer n.lk.Unlock()
 	if n.nEmitters.Load() > 0 || len(n.sinks) > 0 {
-		n.lk.Unlock()
-		b.lk.Unlock()
 		return // still in use
 	}
-	n.lk.Unlock()
-
+	n.dropped = true
 	delete(b.nodes, typ)
-	b.lk.Unlock()
 }
 
 type wildcardSub struct {
@@ -419,6 +432,9 @@ type node struct {
 
 	keepLast bool
 	last     any
+
+	// dropped is set, under lk, when the node has been removed from the bus.
+	dropped bool
 
 	sinks         []*namedSink
 	metricsTracer MetricsTracer
